@@ -23,7 +23,7 @@ from pyvc.proxies import And, Or, Not, Implies, SBool, SInt, SReal, SStr, Len, P
 from pyvc import regex, strmodel
 
 LEVEL = "other"
-EXPLANATION = ("MIXED. Locale.format_date proved by SMT on an integer-microsecond model of datetime/timedelta for every date (aware, naive, "
+EXPLANATION = ("MIXED. Locale.format_date proved by SMT on an integer-microsecond model of datetime/timedelta for every date (aware in UTC or any fixed-offset zone, naive, "
                "integer timestamp), clock reading and gmt_offset: relative mode never renders a date more than 60 s in the future as an "
                "'... ago' phrase, and the number in a relative phrase is the elapsed time in its unit rounded to nearest (round-half-even "
                "for minutes/hours, whole seconds for the seconds phrase). Locale.friendly_number is explored symbolically with the loop "
@@ -73,18 +73,34 @@ class MTD:
     def __sub__(self, o): return MTD(self.us - o.us) if isinstance(o, MTD) else NotImplemented
 
 
-UTC = object()
+class TZ:
+    """tzinfo with a fixed utcoffset (microseconds, possibly symbolic)."""
+    def __init__(self, off_us):
+        self.off_us = off_us
+
+
+UTC = TZ(0)
 
 
 class MDT:
-    """datetime: microseconds since the epoch (UTC); calendar fields are placeholders."""
+    """datetime as wall-clock microseconds since 1970-01-01T00:00 plus an optional fixed-offset tzinfo; an aware
+    value denotes the instant wall - utcoffset.  Calendar fields are placeholders."""
     day, hour, minute, month, year = 2, 13, 5, 7, 2020
 
-    def __init__(self, us, tzinfo=UTC):
-        self.us, self.tzinfo = us, tzinfo
+    def __init__(self, wall, tzinfo=UTC):
+        self.wall, self.tzinfo = wall, tzinfo
+
+    @property
+    def us(self):
+        return self.wall if self.tzinfo is None else self.wall - self.tzinfo.off_us
 
     def replace(self, tzinfo=None):
-        return MDT(self.us, tzinfo)
+        return MDT(self.wall, tzinfo)            # relabels the wall-clock fields, does not convert
+
+    def astimezone(self, tz=None):
+        if self.tzinfo is None or tz is None:
+            raise TypeError("astimezone on naive values / to local time is not modelled")
+        return MDT(self.us + tz.off_us, tz)
 
     def weekday(self):
         return 3
@@ -95,8 +111,11 @@ class MDT:
                 raise TypeError("can't subtract offset-naive and offset-aware datetimes")
             return MTD(self.us - o.us)
         if isinstance(o, MTD):
-            return MDT(self.us - o.us, self.tzinfo)
+            return MDT(self.wall - o.us, self.tzinfo)
         return NotImplemented
+
+    def __add__(self, o):
+        return MDT(self.wall + o.us, self.tzinfo) if isinstance(o, MTD) else NotImplemented
 
     def _cmp(self, o):
         if (self.tzinfo is None) != (o.tzinfo is None):
@@ -187,7 +206,10 @@ def u_format_date(c):
     date_us = c.int("date_us")
     now_us = c.int("now_us")
     off = c.int("gmt_offset")
-    kind = c.choose("date-kind", ["aware", "naive", "timestamp"])
+    kind = c.choose("date-kind", ["aware", "naive", "timestamp", "aware-offset"])
+    tzmin = c.int("tz_offset_minutes") if kind == "aware-offset" else 0
+    if kind == "aware-offset":
+        c.assume(And(tzmin > -1440, tzmin < 1440, tzmin != 0))
     c.assume(And(date_us >= LO, date_us <= HI, now_us >= LO, now_us <= HI, off >= -1440, off <= 1440))
     if kind == "timestamp":
         c.assume(date_us % US == 0)
@@ -197,11 +219,17 @@ def u_format_date(c):
     loc = mk_locale(L, c.choose("locale", ["en_US", "fr_FR"]))
     if c.symbolic:
         mod = model_datetime_module(now_us)
-        date = date_us // US if kind == "timestamp" else MDT(date_us, UTC if kind == "aware" else None)
+        if kind == "aware-offset":
+            date = MDT(date_us + tzmin * 60 * US, TZ(tzmin * 60 * US))       # the same instant, labelled in another zone
+        else:
+            date = date_us // US if kind == "timestamp" else MDT(date_us, UTC if kind == "aware" else None)
     else:
         mod = real_datetime_module(now_us)
         d = _dt.datetime(1970, 1, 1, tzinfo=_dt.timezone.utc) + _dt.timedelta(microseconds=date_us)
-        date = date_us // US if kind == "timestamp" else (d if kind == "aware" else d.replace(tzinfo=None))
+        if kind == "aware-offset":
+            date = d.astimezone(_dt.timezone(_dt.timedelta(minutes=tzmin)))
+        else:
+            date = date_us // US if kind == "timestamp" else (d if kind == "aware" else d.replace(tzinfo=None))
     with c.patched((L, "datetime", mod)):
         out = c.call(c.fn(M, "Locale.format_date"), loc, date, off, relative, shorter, full_format)
     c.only_raises(out, ())
@@ -391,10 +419,13 @@ def standin(tier, seed):
             L.datetime = types.SimpleNamespace(datetime=frozen, timedelta=_dt.timedelta, timezone=_dt.timezone)
             for ahead in sorted(offs):            # seconds by which the date lies in the FUTURE (negative: past)
                 for frac in (0, 400000):
-                    for form in ("aware", "naive", "int", "float"):
+                    for form in ("aware", "naive", "int", "float", "aware+09:00", "aware-03:30"):
                         date = now + _dt.timedelta(seconds=ahead, microseconds=frac)
                         if form == "naive":
                             arg = date.replace(tzinfo=None)
+                        elif form.startswith("aware") and form != "aware":
+                            sign = 1 if form[5] == "+" else -1
+                            arg = date.astimezone(_dt.timezone(sign * _dt.timedelta(hours=int(form[6:8]), minutes=int(form[9:11]))))
                         elif form == "int":
                             if frac:
                                 continue
@@ -439,7 +470,7 @@ def standin(tier, seed):
     return {"evaluations": evals, "distinct_nontrivial": len(nontriv), "failures": failures[:3], "samples": samples,
             "rule": "friendly_number: %d integers (+-(10^k + {-1,0,1}) for k <= 30, -1200..1200, random up to 10^30) must match -?D{1,3}(,DDD)* and read back "
                     "through int(); format_date(relative=True) with real datetime objects under %d frozen clocks x %d offsets in [-400 d, +400 d] (dense around "
-                    "0, +-60 s, 50 s, 50 min, hour and day boundaries) x {0, 0.4 s} x {aware, naive, int, float} x gmt_offset {0, -330}: every '<n> <unit>s ago' "
+                    "0, +-60 s, 50 s, 50 min, hour and day boundaries) x {0, 0.4 s} x {aware UTC, naive, int, float, aware +09:00, aware -03:30} x gmt_offset {0, -330}: every '<n> <unit>s ago' "
                     "phrase must be for a date not more than 60 s ahead and n must be the elapsed time in that unit rounded to nearest; distinct = (unit, n) / "
                     "(digits, sign) classes" % (len(vals), len(base_clocks), len(offs)),
             "wall_s": round(time.time() - t0, 2)}
